@@ -154,7 +154,7 @@ Lemma JT_set_live ws tqi tb tk ct cc rt h w k k' :
    exists m, pmode (k_st k') = Some m /\
              match k_task k with
              | Some (_, rest) => body_from m rest = true
-             | None => m = MRun /\ k_st k' = Ready
+             | None => m = MRun /\ (k_st k' = Ready \/ k_st k' = Suspend 0 0)
              end) ->
   JT (set_nth w k' ws) tqi tb tk ct cc rt h.
 Proof.
@@ -768,17 +768,18 @@ Proof. reflexivity. Qed.
 
 Section Steps.
 Variable mx : Z.
+Variable kp : Z.
 
 Definition quiet_off (t : potr) : Prop := pt_quiet (nth 0 (po_pools t) ptrk0) = false.
 
 Lemma Jc_try_grow tnt cc x d h t :
-  Jc mx tnt cc x d h t -> quiet_off t -> Jc mx tnt cc (try_grow x 0) d h t /\ G mx (try_grow x 0) None.
+  Jc mx kp tnt cc x d h t -> quiet_off t -> Jc mx kp tnt cc (try_grow x 0) d h t /\ G mx (try_grow x 0) None.
 Proof.
   intros HJ Hq. pose proof HJ as [[HQt HQc] HL HP HS HT HR HW].
-  destruct (try_grow_cases x (jp_pools _ _ _ HP)) as [[-> Hc]|(Hfull & Hlt & Hg)].
+  destruct (try_grow_cases x (jp_pools _ _ _ _ HP)) as [[-> Hc]|(Hfull & Hlt & Hg)].
   - split; [exact HJ|]. destruct Hc as [Hc|Hc].
     + left. rewrite (Q1_full_len _ HQt) in Hc. destruct (all_items (pw_tq x)); [reflexivity | cbn [length] in Hc; lia].
-    + right. left. rewrite <- (jp_max _ _ _ HP). exact Hc.
+    + right. left. rewrite <- (jp_max _ _ _ _ HP). exact Hc.
   - set (x' := try_grow x 0) in *. destruct Hg as [Ews Ecq Epool Epools Eclock Etq Etb Ect Ecc Ert Ecur Espin Ecn Ets].
     destruct (Q1_lpush (pw_cq x) 0 (Z.of_nat (length (pw_workers x))) HQc) as [HQc' Hcnt].
     assert (forall v, h = Some v -> (v < length (pw_workers x))%nat) as Hh.
@@ -789,6 +790,7 @@ Proof.
       * rewrite Eclock, Ews, Ecq. apply (JL_grow _ _ (all_items (pw_cq x))); [exact HL | exact Hcnt | reflexivity].
       * destruct HP as [P1 P2 P3 P4 P5 P6 P7 P8 P9 P10 P11 P12].
         constructor; rewrite ?Epool, ?Ecur, ?Espin, ?Eclock, ?Ecn, ?Ews; autorewrite with pw; try assumption.
+        -- destruct P3 as (Ek & Hc0 & Hcr & Hpf). split; [exact Ek|]. split; [exact Hc0|]. split; [apply CR_snoc; [exact Hcr | cbn; lia] | exact Hpf].
         -- rewrite nlive_app, P7. cbn. lia.
         -- lia.
       * rewrite Epool, Etq. autorewrite with pw. destruct HS as [S1 S2 S3 S4 S5 S6 S7]. constructor; try assumption.
@@ -819,8 +821,8 @@ Proof. destruct c; reflexivity. Qed.
 
 (** the worker being resumed changes state and stays alive *)
 Lemma Jc_set_live tnt cc x d w t k new :
-  Jc mx tnt cc x d (Some w) t -> get_worker x w = Some k -> live k = true -> terminal new = false ->
-  Jc mx tnt cc (upd_worker x w (with_st k new)) d (Some w) (pev t (EL 0 w (CbChanged new) (k_st k))).
+  Jc mx kp tnt cc x d (Some w) t -> get_worker x w = Some k -> live k = true -> terminal new = false ->
+  Jc mx kp tnt cc (upd_worker x w (with_st k new)) d (Some w) (pev t (EL 0 w (CbChanged new) (k_st k))).
 Proof.
   intros [HQ HL HP HS HT HR HW] Hk Hl Hnew. unfold get_worker in Hk.
   assert (w < length (pw_workers x))%nat as Hlt by (eapply nth_error_Some_lt, Hk).
@@ -828,7 +830,8 @@ Proof.
   constructor; autorewrite with pw; rewrite ?pev_EL_tasks, ?pev_EL_clock, ?po_pools_pev; try assumption.
   - apply JL_set_hole, HL.
   - destruct HP as [P1 P2 P3 P4 P5 P6 P7 P8 P9 P10 P11 P12]. constructor; autorewrite with pw; try assumption.
-    rewrite (nlive_set_nth _ _ _ _ Hk), Hl, Hl'. lia.
+    + destruct P3 as (Ek & Hc0 & Hcr & Hpf). split; [exact Ek|]. split; [exact Hc0|]. split; [eapply CR_set_same; [exact Hcr | exact Hk | reflexivity] | exact Hpf].
+    + rewrite (nlive_set_nth _ _ _ _ Hk), Hl, Hl'. lia.
   - eapply JT_set_live; try eassumption; try reflexivity.
     cbn [is_hole]. rewrite Nat.eqb_refl. discriminate.
   - change new with (k_st (with_st k new)) at 2. apply JW_set; assumption.
@@ -836,26 +839,27 @@ Qed.
 
 (** the worker being resumed reaches a terminal state; the creator lowers the count *)
 Lemma Jc_set_dead tnt cc x d w t k new :
-  Jc mx tnt cc x d (Some w) t -> quiet_off t -> get_worker x w = Some k -> live k = true -> terminal new = true ->
+  Jc mx kp tnt cc x d (Some w) t -> quiet_off t -> get_worker x w = Some k -> live k = true -> terminal new = true ->
   (k_task k = None \/ exists i rest, k_task k = Some (i, rest) /\ tt_cancel1 (tkn (po_tasks t) i) = true) ->
-  Jc mx tnt cc (upd_pool (upd_worker x w (with_st k new)) 0 (fun q => p_with_running (sat_sub (p_running q) 1) q)) d (Some w)
+  Jc mx kp tnt cc (upd_pool (upd_worker x w (with_st k new)) 0 (fun q => p_with_running (sat_sub (p_running q) 1) q)) d (Some w)
     (pev t (EL 0 w (CbChanged new) (k_st k))).
 Proof.
   intros [HQ HL HP HS HT HR HW] Hq Hk Hl Hnew Htask. unfold get_worker in Hk.
   assert (w < length (pw_workers x))%nat as Hlt by (eapply nth_error_Some_lt, Hk).
   assert (live (with_st k new) = false) as Hl' by (unfold live; cbn [with_st k_st]; rewrite Hnew; reflexivity).
   pose proof (nlive_pos _ _ _ Hk Hl) as Hpos.
-  assert (length (pw_pools (upd_worker x w (with_st k new))) = 1%nat) as Hlen by (autorewrite with pw; apply (jp_pools _ _ _ HP)).
+  assert (length (pw_pools (upd_worker x w (with_st k new))) = 1%nat) as Hlen by (autorewrite with pw; apply (jp_pools _ _ _ _ HP)).
   constructor; autorewrite with pw; rewrite ?pev_EL_tasks, ?pev_EL_clock, ?po_pools_pev;
     rewrite ?(get_pool_upd_pool_same _ 0 _) by lia; autorewrite with pw; try assumption.
   - apply JL_set_hole, HL.
   - destruct HP as [P1 P2 P3 P4 P5 P6 P7 P8 P9 P10 P11 P12].
     constructor; autorewrite with pw; rewrite ?(get_pool_upd_pool_same _ 0 _) by lia; autorewrite with pw; try assumption.
     + rewrite set_nth_length. exact P1.
+    + destruct P3 as (Ek & Hc0 & Hcr & Hpf). split; [exact Ek|]. split; [exact Hc0|]. split; [eapply CR_set_same; [exact Hcr | exact Hk | reflexivity] | exact Hpf].
     + rewrite (nlive_set_nth _ _ _ _ Hk), Hl, Hl', P7. unfold sat_sub. lia.
     + unfold sat_sub. lia.
   - destruct HS as [S1 S2 S3 S4 S5 S6 S7]. constructor; try assumption.
-    + intro Hst. destruct (S6 Hst) as [H0 _]. rewrite (jp_run _ _ _ HP) in H0. lia.
+    + intro Hst. destruct (S6 Hst) as [H0 _]. rewrite (jp_run _ _ _ _ HP) in H0. lia.
     + intro Hqt. unfold quiet_off in Hq. congruence.
   - eapply JT_set_dead; try eassumption; reflexivity.
   - change new with (k_st (with_st k new)) at 2. apply JW_set; assumption.
@@ -917,11 +921,11 @@ Definition creator_grows (new : cstate) : bool :=
 
 (** [k_change] on the worker being resumed *)
 Lemma Jc_k_change tnt cc x d w t k new :
-  Jc mx tnt cc x d (Some w) t -> quiet_off t -> get_worker x w = Some k -> live k = true ->
+  Jc mx kp tnt cc x d (Some w) t -> quiet_off t -> get_worker x w = Some k -> live k = true ->
   (terminal new = true ->
    k_task k = None \/ exists i rest, k_task k = Some (i, rest) /\ tt_cancel1 (tkn (po_tasks t) i) = true) ->
   exists x', k_change x w new = (x', [EL 0 w (CbChanged new) (k_st k)]) /\
-    Jc mx tnt cc x' d (Some w) (pev t (EL 0 w (CbChanged new) (k_st k))) /\
+    Jc mx kp tnt cc x' d (Some w) (pev t (EL 0 w (CbChanged new) (k_st k))) /\
     same_misc x x' /\ get_worker x' w = Some (with_st k new) /\
     (creator_grows new = true -> G mx x' None) /\
     (G mx x (Some w) -> terminal new = false -> is_sys new = false -> G mx x' (Some w)) /\
@@ -931,8 +935,8 @@ Proof.
   change {| k_st := new; k_create := k_create k; k_task := k_task k; k_tpool := k_tpool k; k_dead := k_dead k |} with (with_st k new).
   set (x1 := upd_worker x w (with_st k new)). set (e := EL 0 w (CbChanged new) (k_st k)).
   eexists. split; [reflexivity|].
-  assert (pw_cur x1 = 0%nat) as Hcur by (unfold x1; autorewrite with pw; apply (jp_cur _ _ _ (j_p _ _ _ _ _ _ _ HJ))).
-  assert (length (pw_pools x1) = 1%nat) as Hp1 by (unfold x1; autorewrite with pw; apply (jp_pools _ _ _ (j_p _ _ _ _ _ _ _ HJ))).
+  assert (pw_cur x1 = 0%nat) as Hcur by (unfold x1; autorewrite with pw; apply (jp_cur _ _ _ _ (j_p _ _ _ _ _ _ _ _ HJ))).
+  assert (length (pw_pools x1) = 1%nat) as Hp1 by (unfold x1; autorewrite with pw; apply (jp_pools _ _ _ _ (j_p _ _ _ _ _ _ _ _ HJ))).
   assert (same_misc x x1) as Hm1 by (unfold x1; constructor; autorewrite with pw; reflexivity).
   assert (get_worker x1 w = Some (with_st k new)) as Hw1.
   { unfold x1. apply get_worker_upd_worker_same. eapply get_worker_lt, Hk. }
@@ -975,23 +979,23 @@ Qed.
 
 (** the same with the state's own set of cancelled coroutines *)
 Lemma J_try_grow tnt x d h t :
-  J mx tnt x d h t -> quiet_off t -> J mx tnt (try_grow x 0) d h t /\ G mx (try_grow x 0) None.
+  J mx kp tnt x d h t -> quiet_off t -> J mx kp tnt (try_grow x 0) d h t /\ G mx (try_grow x 0) None.
 Proof.
   intros HJ Hq. destruct (Jc_try_grow tnt _ x d h t HJ Hq) as [H1 H2]. split; [|exact H2]. unfold J.
-  rewrite (sm_cc _ _ (try_grow_misc x (jp_pools _ _ _ (j_p _ _ _ _ _ _ _ HJ)))). exact H1.
+  rewrite (sm_cc _ _ (try_grow_misc x (jp_pools _ _ _ _ (j_p _ _ _ _ _ _ _ _ HJ)))). exact H1.
 Qed.
 
 Lemma J_set_live tnt x d w t k new :
-  J mx tnt x d (Some w) t -> get_worker x w = Some k -> live k = true -> terminal new = false ->
-  J mx tnt (upd_worker x w (with_st k new)) d (Some w) (pev t (EL 0 w (CbChanged new) (k_st k))).
+  J mx kp tnt x d (Some w) t -> get_worker x w = Some k -> live k = true -> terminal new = false ->
+  J mx kp tnt (upd_worker x w (with_st k new)) d (Some w) (pev t (EL 0 w (CbChanged new) (k_st k))).
 Proof. intros HJ Hk Hl Hn. apply (Jc_set_live tnt _ x d w t k new HJ Hk Hl Hn). Qed.
 
 Lemma J_k_change tnt x d w t k new :
-  J mx tnt x d (Some w) t -> quiet_off t -> get_worker x w = Some k -> live k = true ->
+  J mx kp tnt x d (Some w) t -> quiet_off t -> get_worker x w = Some k -> live k = true ->
   (terminal new = true ->
    k_task k = None \/ exists i rest, k_task k = Some (i, rest) /\ tt_cancel1 (tkn (po_tasks t) i) = true) ->
   exists x', k_change x w new = (x', [EL 0 w (CbChanged new) (k_st k)]) /\
-    J mx tnt x' d (Some w) (pev t (EL 0 w (CbChanged new) (k_st k))) /\
+    J mx kp tnt x' d (Some w) (pev t (EL 0 w (CbChanged new) (k_st k))) /\
     same_misc x x' /\ get_worker x' w = Some (with_st k new) /\
     (creator_grows new = true -> G mx x' None) /\
     (G mx x (Some w) -> terminal new = false -> is_sys new = false -> G mx x' (Some w)) /\
@@ -1003,18 +1007,19 @@ Qed.
 
 (** the record of the worker being resumed changes; same state, same task id *)
 Lemma J_hole_upd tnt x d w t k k' :
-  J mx tnt x d (Some w) t -> get_worker x w = Some k -> k_st k' = k_st k -> tid k' = tid k ->
+  J mx kp tnt x d (Some w) t -> get_worker x w = Some k -> k_st k' = k_st k -> k_create k' = k_create k -> tid k' = tid k ->
   (forall i rest, k_task k' = Some (i, rest) ->
      body_outcome rest = body_outcome (nth i (pw_tbody x) []) /\ (length rest <= length (nth i (pw_tbody x) []))%nat) ->
-  J mx tnt (upd_worker x w k') d (Some w) t.
+  J mx kp tnt (upd_worker x w k') d (Some w) t.
 Proof.
-  intros [HQ HL HP HS HT HR HW] Hk Est Etid Hsuf'. unfold get_worker in Hk.
+  intros [HQ HL HP HS HT HR HW] Hk Est Ecr Etid Hsuf'. unfold get_worker in Hk.
   assert (w < length (pw_workers x))%nat as Hlt by (eapply nth_error_Some_lt, Hk).
   assert (live k' = live k) as El by (unfold live; rewrite Est; reflexivity).
   constructor; autorewrite with pw; try assumption.
   - apply JL_set_hole, HL.
   - destruct HP as [P1 P2 P3 P4 P5 P6 P7 P8 P9 P10 P11 P12]. constructor; autorewrite with pw; try assumption.
-    rewrite (nlive_set_nth _ _ _ _ Hk), El. lia.
+    + destruct P3 as (Ek & Hc0 & Hcr & Hpf). split; [exact Ek|]. split; [exact Hc0|]. split; [eapply CR_set_same; [exact Hcr | exact Hk | exact Ecr] | exact Hpf].
+    + rewrite (nlive_set_nth _ _ _ _ Hk), El. lia.
   - eapply JT_set_hole; eassumption.
   - destruct HW as [W1 W2 W3 W4 W5 W6]. constructor; try assumption.
     intro v. rewrite (wst_set _ _ _ _ Hlt), W1. destruct (Nat.eqb v w) eqn:E; [|reflexivity].
@@ -1023,22 +1028,24 @@ Qed.
 
 (** the clock advances (a tick of a task body) *)
 Lemma J_tick tnt x d h t i dd :
-  J mx tnt x d h t -> 0 <= dd ->
-  J mx tnt (set_clockp x (sat_add64 (pw_clock x) dd)) d h (pev t (EB i (BTick dd))).
+  J mx kp tnt x d h t -> 0 <= dd ->
+  J mx kp tnt (set_clockp x (sat_add64 (pw_clock x) dd)) d h (pev t (EB i (BTick dd))).
 Proof.
   intros [HQ HL HP HS HT HR HW] Hd.
   destruct HP as [P1 P2 P3 P4 P5 P6 P7 P8 P9 P10 P11 P12].
   destruct (sat_add64_mono (pw_clock x) dd P10 Hd) as [Hm1 Hm2].
   constructor; autorewrite with pw; try assumption.
   - eapply JL_clock; [exact Hm1 | exact HL].
-  - constructor; autorewrite with pw; try assumption. cbn [pev po_clock]. apply sat_add64_le, P11.
+  - constructor; autorewrite with pw; try assumption.
+    + destruct P3 as (Ek & Hc0 & Hcr & Hpf). split; [exact Ek|]. split; [lia|]. split; [eapply CR_mono; [exact Hcr | exact Hm1] | exact Hpf].
+    + cbn [pev po_clock]. apply sat_add64_le, P11.
   - destruct HW as [W1 W2 W3 W4 W5 W6]. constructor; assumption.
 Qed.
 
 (** assembling the invariant after a composite update *)
 Lemma J_of_post tnt x xg d h t' ws' tq' ct' rt' q' :
   upd_post x xg ws' tq' ct' rt' q' ->
-  JP mx x (po_clock t') ->
+  JP mx kp x (po_clock t') ->
   p_min q' = p_min (get_pool x 0) -> p_keep q' = p_keep (get_pool x 0) -> p_max q' = p_max (get_pool x 0) ->
   p_running q' = nlive ws' -> p_running q' <= mx ->
   Q1 tq' ->
@@ -1048,20 +1055,22 @@ Lemma J_of_post tnt x xg d h t' ws' tq' ct' rt' q' :
   JR (p_waits q') (p_results q') (p_nowaits q') (p_state q') (all_items tq') (po_tasks t') ->
   JW ws' t' tnt ->
   Q1 (pw_cq x) ->
-  J mx tnt xg d h t'.
+  CR (pw_clock x) ws' /\ 0 <= p_popfail q' ->
+  J mx kp tnt xg d h t'.
 Proof.
-  intros [U1 U2 U3 U4 U5 U6 U7 U8 U9 U10 U11 U12 U13 U14] HP E1 E2 E3 E4 E5 HQt HL HS HT HR HW HQc.
+  intros [U1 U2 U3 U4 U5 U6 U7 U8 U9 U10 U11 U12 U13 U14] HP E1 E2 E3 E4 E5 HQt HL HS HT HR HW HQc [Hcr' Hpf'].
   destruct HP as [P1 P2 P3 P4 P5 P6 P7 P8 P9 P10 P11 P12].
   constructor; rewrite ?U1, ?U2, ?U3, ?U4, ?U5, ?U7, ?U8, ?U9, ?U10; try assumption.
   - constructor; assumption.
-  - constructor; rewrite ?U1, ?U5, ?U8, ?U11, ?U12, ?U13; try assumption; try congruence; lia.
+  - constructor; rewrite ?U1, ?U5, ?U8, ?U11, ?U12, ?U13; try assumption; try congruence; try lia.
+    destruct P3 as (Ek & Hc0 & _). split; [congruence|]. split; [assumption|]. split; assumption.
 Qed.
 
 Lemma J_pst_not_stopped tnt x d h t w k :
-  J mx tnt x d h t -> get_worker x w = Some k -> live k = true -> p_state (get_pool x 0) <> PStopped.
+  J mx kp tnt x d h t -> get_worker x w = Some k -> live k = true -> p_state (get_pool x 0) <> PStopped.
 Proof.
-  intros HJ Hk Hl Hst. destruct (js_stopped _ _ _ _ _ (j_s _ _ _ _ _ _ _ HJ) Hst) as [H0 _].
-  rewrite (jp_run _ _ _ (j_p _ _ _ _ _ _ _ HJ)) in H0. pose proof (nlive_pos _ _ _ Hk Hl). lia.
+  intros HJ Hk Hl Hst. destruct (js_stopped _ _ _ _ _ (j_s _ _ _ _ _ _ _ _ HJ) Hst) as [H0 _].
+  rewrite (jp_run _ _ _ _ (j_p _ _ _ _ _ _ _ _ HJ)) in H0. pose proof (nlive_pos _ _ _ Hk Hl). lia.
 Qed.
 
 Lemma G_idle x h w k : get_worker x w = Some k -> live k = true -> k_task k = None -> G mx x h.
@@ -1069,11 +1078,11 @@ Proof. intros Hk Hl Ht. right. right. exists w, k. auto. Qed.
 
 (** a task finishes in the worker being resumed *)
 Lemma J_finish tnt x d w t k i rest r :
-  J mx tnt x d (Some w) t -> quiet_off t -> get_worker x w = Some k -> live k = true -> k_task k = Some (i, rest) ->
+  J mx kp tnt x d (Some w) t -> quiet_off t -> get_worker x w = Some k -> live k = true -> k_task k = Some (i, rest) ->
   r = body_outcome rest ->
   exists xf, finish_task (upd_worker x w (with_task k None)) 0 i r = FinOk xf /\
     let xg := upd_pool xf 0 (p_with_popfail 0) in
-    J mx tnt xg d (Some w) (fin_trk t i r) /\ same_misc x xg /\ get_worker xg w = Some (with_task k None) /\
+    J mx kp tnt xg d (Some w) (fin_trk t i r) /\ same_misc x xg /\ get_worker xg w = Some (with_task k None) /\
     G mx xg (Some w).
 Proof.
   intros HJ Hq Hk Hl Htask Hrout. pose proof HJ as [[HQt HQc] HL HP HS HT HR HW].
@@ -1082,7 +1091,7 @@ Proof.
   assert (i < length (po_tasks t))%nat as Hi' by (rewrite (jt_len _ _ _ _ _ _ _ _ HT); exact Hi).
   assert (w < length (pw_workers x))%nat as Hlt by (eapply nth_error_Some_lt, Hk).
   set (xa := upd_worker x w (with_task k None)).
-  assert (length (pw_pools xa) = 1%nat) as Hpa by (unfold xa; autorewrite with pw; apply (jp_pools _ _ _ HP)).
+  assert (length (pw_pools xa) = 1%nat) as Hpa by (unfold xa; autorewrite with pw; apply (jp_pools _ _ _ _ HP)).
   pose proof (finish_task_post xa i r Hpa) as Hpost. cbn zeta in Hpost.
   assert (get_pool xa 0 = get_pool x 0) as Hqa by (unfold xa; autorewrite with pw; reflexivity).
   rewrite Hqa in Hpost. set (q := get_pool x 0) in *.
@@ -1097,7 +1106,7 @@ Proof.
     unfold xg. constructor; autorewrite with pw; rewrite ?(get_pool_upd_pool_same xf 0 _) by lia;
       rewrite ?U1, ?U2, ?U3, ?U4, ?U5, ?U7, ?U8, ?U9, ?U10, ?U11, ?U12, ?U13, ?U14; unfold xa; autorewrite with pw; try reflexivity.
     rewrite set_nth_length. exact U6. }
-  assert (JP mx x (po_clock (fin_trk t i r))) as HP' by exact HP.
+  assert (JP mx kp x (po_clock (fin_trk t i r))) as HP' by exact HP.
   assert (nlive (set_nth w (with_task k None) (pw_workers x)) = nlive (pw_workers x)) as Hnl.
   { rewrite (nlive_set_nth _ _ _ _ Hk). unfold live at 2. cbn [with_task k_st]. fold (live k). lia. }
   assert (JW (set_nth w (with_task k None) (pw_workers x)) (fin_trk t i r) tnt) as HW'.
@@ -1111,15 +1120,16 @@ Proof.
   assert (forall W R N, upd_post x xg (set_nth w (with_task k None) (pw_workers x)) (pw_tq x) (pw_cancel_tasks x)
                    (assoc_del i (pw_running_tasks x)) (p_with_popfail 0 (p_with_wait W R N q)) ->
           JR W R N (p_state q) (all_items (pw_tq x)) (po_tasks (fin_trk t i r)) ->
-          J mx tnt xg d (Some w) (fin_trk t i r) /\ same_misc x xg /\ get_worker xg w = Some (with_task k None) /\ G mx xg (Some w)) as Hfin'.
+          J mx kp tnt xg d (Some w) (fin_trk t i r) /\ same_misc x xg /\ get_worker xg w = Some (with_task k None) /\ G mx xg (Some w)) as Hfin'.
   { intros W R N Hu HR'. pose proof Hu as [U1 U2 U3 U4 U5 U6 U7 U8 U9 U10 U11 U12 U13 U14].
     assert (get_worker xg w = Some (with_task k None)) as Hwg.
     { unfold get_worker. rewrite U1. apply nth_error_set_nth_same, Hlt. }
     split; [|split; [constructor; congruence | split; [exact Hwg|]]].
     - eapply (J_of_post tnt x xg d (Some w) (fin_trk t i r)); try eassumption; autorewrite with pw; try reflexivity.
-      + rewrite Hnl. apply (jp_run _ _ _ HP).
-      + apply (jp_le _ _ _ HP).
+      + rewrite Hnl. apply (jp_run _ _ _ _ HP).
+      + apply (jp_le _ _ _ _ HP).
       + apply JL_set_hole, HL.
+      + destruct (jp_keep _ _ _ _ HP) as (_ & _ & Hcr & _). split; [eapply CR_set_same; [exact Hcr | exact Hk | reflexivity] | cbn; lia].
     - eapply G_idle; [exact Hwg | exact Hl | reflexivity]. }
   destruct Hpost as [(Hm & Hu)|(Hm & Hr & Hu)].
   - apply (Hfin' _ _ _ (Hup _ _ _ Hu)). unfold fin_trk. autorewrite with potr. rewrite gett_tkn.
@@ -1167,11 +1177,11 @@ Qed.
 
 (** a queued task whose cancellation was requested is popped and dropped by the worker being resumed *)
 Lemma J_pop_cancel tnt x d w t k q' tz :
-  J mx tnt x d (Some w) t -> quiet_off t -> get_worker x w = Some k -> live k = true ->
+  J mx kp tnt x d (Some w) t -> quiet_off t -> get_worker x w = Some k -> live k = true ->
   Q1 q' -> (forall y, cnt y (all_items (pw_tq x)) = (one y tz + cnt y (all_items q'))%nat) ->
   mem_nat (Z.to_nat tz) (pw_cancel_tasks x) = true ->
   let xg := pop_cancel x 0 q' (Z.to_nat tz) in
-  J mx tnt xg d (Some w) t /\ pw_cancel_cos xg = pw_cancel_cos x /\ pw_ts xg = pw_ts x /\
+  J mx kp tnt xg d (Some w) t /\ pw_cancel_cos xg = pw_cancel_cos x /\ pw_ts xg = pw_ts x /\
   get_worker xg w = Some k /\ pw_tbody xg = pw_tbody x.
 Proof.
   intros HJ Hq Hk Hl HQ' Hcnt Hmem. pose proof HJ as [[HQt HQc] HL HP HS HT HR HW].
@@ -1182,14 +1192,14 @@ Proof.
   rewrite Nat2Z.id in *. apply mem_nat_In in Hmem.
   pose proof (jt_t3 _ _ _ _ _ _ _ _ HT _ Hmem Hz) as Hc0.
   destruct (popped_In _ _ _ Hcnt Hc1) as (Hnz & Hin & Hcnt').
-  destruct (pop_cancel_post x q' i (jp_pools _ _ _ HP)) as (W & R & N & Hu & Hcase). cbv zeta in Hu.
+  destruct (pop_cancel_post x q' i (jp_pools _ _ _ _ HP)) as (W & R & N & Hu & Hcase). cbv zeta in Hu.
   set (q := get_pool x 0) in *. cbv zeta. set (xg := pop_cancel x 0 q' i) in *.
   pose proof Hu as [U1 U2 U3 U4 U5 U6 U7 U8 U9 U10 U11 U12 U13 U14].
   assert (i < length (po_tasks t))%nat as Hi' by (rewrite (jt_len _ _ _ _ _ _ _ _ HT); exact Hi).
   split; [|split; [exact U10 | split; [exact U14 | split; [unfold get_worker; rewrite U1; exact Hk | exact U9]]]].
   eapply (J_of_post tnt x xg d (Some w) t); try eassumption; autorewrite with pw; try reflexivity.
-  - apply (jp_run _ _ _ HP).
-  - apply (jp_le _ _ _ HP).
+  - apply (jp_run _ _ _ _ HP).
+  - apply (jp_le _ _ _ _ HP).
   - eapply JS_tq; [exact HS | exact Hps | exact Hq].
   - eapply JT_popcancel; try eassumption.
     + intros j Hj Hin'. apply remove_nat_In_other; assumption || congruence.
@@ -1197,17 +1207,18 @@ Proof.
   - destruct Hcase as [(Hm & -> & -> & ->)|(Hm & -> & -> & ->)].
     + apply JR_popcancel_nowaits with (tqi := all_items (pw_tq x)); try assumption. apply mem_nat_In, Hm.
     + apply JR_popcancel_result with (tqi := all_items (pw_tq x)); try assumption. apply mem_nat_false, Hm.
+  - destruct (jp_keep _ _ _ _ HP) as (_ & _ & Hcr & _). split; [exact Hcr | cbn; lia].
 Qed.
 
 (** a queued task is popped and started by the worker being resumed *)
 Lemma J_pop_start tnt x d w t k q' tz :
-  J mx tnt x d (Some w) t -> quiet_off t -> get_worker x w = Some k -> live k = true -> k_task k = None ->
+  J mx kp tnt x d (Some w) t -> quiet_off t -> get_worker x w = Some k -> live k = true -> k_task k = None ->
   ~ In w (pw_cancel_cos x) ->
   Q1 q' -> (forall y, cnt y (all_items (pw_tq x)) = (one y tz + cnt y (all_items q'))%nat) ->
   mem_nat (Z.to_nat tz) (pw_cancel_tasks x) = false ->
   let i := Z.to_nat tz in
   let xg := pop_start x 0 q' i w k in
-  J mx tnt xg d (Some w) (start_trk t i) /\ pw_cancel_cos xg = pw_cancel_cos x /\ pw_ts xg = pw_ts x /\
+  J mx kp tnt xg d (Some w) (start_trk t i) /\ pw_cancel_cos xg = pw_cancel_cos x /\ pw_ts xg = pw_ts x /\
   pw_tbody xg = pw_tbody x /\
   get_worker xg w = Some {| k_st := k_st k; k_create := k_create k; k_task := Some (i, nth i (pw_tbody x) []); k_tpool := 0%nat; k_dead := k_dead k |} /\
   body_from MRun (nth i (pw_tbody x) []) = true.
@@ -1224,15 +1235,15 @@ Proof.
   set (k' := {| k_st := k_st k; k_create := k_create k; k_task := Some (i, nth i (pw_tbody x) []); k_tpool := 0%nat; k_dead := k_dead k |}).
   set (xg := pop_start x 0 q' i w k).
   assert (upd_post x xg (set_nth w k' (pw_workers x)) q' (pw_cancel_tasks x) (assoc_del i (pw_running_tasks x) ++ [(i, w)]) (get_pool x 0)) as Hu.
-  { unfold xg, pop_start. constructor; autorewrite with pw; try reflexivity. apply (jp_pools _ _ _ HP). }
+  { unfold xg, pop_start. constructor; autorewrite with pw; try reflexivity. apply (jp_pools _ _ _ _ HP). }
   pose proof Hu as [U1 U2 U3 U4 U5 U6 U7 U8 U9 U10 U11 U12 U13 U14].
   assert (get_worker xg w = Some k') as Hwg by (unfold get_worker; rewrite U1; apply nth_error_set_nth_same, Hlt).
   split; [|split; [exact U10 | split; [exact U14 | split; [exact U9 | split; [exact Hwg | exact Hbody]]]]].
   assert (nlive (set_nth w k' (pw_workers x)) = nlive (pw_workers x)) as Hnl.
   { rewrite (nlive_set_nth _ _ _ _ Hk). unfold live at 2. cbn [k' k_st]. fold (live k). lia. }
   eapply (J_of_post tnt x xg d (Some w) (start_trk t i)); try eassumption; try reflexivity.
-  - rewrite Hnl. apply (jp_run _ _ _ HP).
-  - apply (jp_le _ _ _ HP).
+  - rewrite Hnl. apply (jp_run _ _ _ _ HP).
+  - apply (jp_le _ _ _ _ HP).
   - apply JL_set_hole, HL.
   - unfold start_trk. autorewrite with potr. eapply JS_tq; [exact HS | exact Hps | exact Hq].
   - unfold start_trk. autorewrite with potr. rewrite gett_tkn.
@@ -1247,12 +1258,13 @@ Proof.
       destruct (tt_cancel0 (tkn (po_tasks t) i)) eqn:E0; [|reflexivity].
       destruct (tt_withdrawn (tkn (po_tasks t) i)) eqn:Ew; [reflexivity|].
       exfalso. apply Hmem. eapply (jt_te _ _ _ _ _ _ _ _ HT); eassumption.
+  - destruct (jp_keep _ _ _ _ HP) as (_ & _ & Hcr & Hpf). split; [eapply CR_set_same; [exact Hcr | exact Hk | reflexivity] | exact Hpf].
 Qed.
 
 (** the task queue is found empty *)
 Lemma J_pop_none tnt x d h t q' :
-  J mx tnt x d h t -> Q1 q' -> all_items (pw_tq x) = [] -> all_items q' = [] ->
-  J mx tnt (set_tq x q') d h t.
+  J mx kp tnt x d h t -> Q1 q' -> all_items (pw_tq x) = [] -> all_items q' = [] ->
+  J mx kp tnt (set_tq x q') d h t.
 Proof.
   intros [[HQt HQc] HL HP HS HT HR HW] HQ' E E'.
   constructor; autorewrite with pw; rewrite ?E'; rewrite ?E in *; try assumption.
@@ -1333,6 +1345,43 @@ Proof.
   assert (live k' = true) as Hl' by exact Hl.
   assert (wwork k' = S (blen (pw_tbody x) (Z.to_nat tz))) as E1 by (rewrite (wwork_live k' Hl'); reflexivity).
   rewrite E0, E1, Hl, Hl' in H1. cbn [b2z] in H1. lia.
+Qed.
+
+(** * the idle steps of the worker loop: the pop-fail count changes, the clock advances by a nap *)
+Lemma J_popfail tnt x d h t v : J mx kp tnt x d h t -> 0 <= v -> J mx kp tnt (upd_pool x 0 (p_with_popfail v)) d h t.
+Proof.
+  intros HJ Hv. pose proof HJ as [[HQt HQc] HL HP HS HT HR HW].
+  assert (length (pw_pools x) = 1%nat) as Hp by apply (jp_pools _ _ _ _ HP).
+  assert (upd_post x (upd_pool x 0 (p_with_popfail v)) (pw_workers x) (pw_tq x) (pw_cancel_tasks x) (pw_running_tasks x)
+                   (p_with_popfail v (get_pool x 0))) as Hu.
+  { constructor; autorewrite with pw; try reflexivity; [apply get_pool_upd_pool_same; lia | rewrite set_nth_length; exact Hp]. }
+  eapply (J_of_post tnt x _ d h t _ _ _ _ _ Hu); try eassumption; try reflexivity.
+  - apply (jp_run _ _ _ _ HP).
+  - apply (jp_le _ _ _ _ HP).
+  - destruct (jp_keep _ _ _ _ HP) as (_ & _ & Hcr & _). split; [exact Hcr | exact Hv].
+Qed.
+
+Lemma J_clockp tnt x d h t c : J mx kp tnt x d h t -> pw_clock x <= c -> c <= U64MAX -> J mx kp tnt (set_clockp x c) d h t.
+Proof.
+  intros [HQ HL HP HS HT HR HW] H1 H2. constructor; autorewrite with pw; try assumption.
+  - eapply JL_clock; [exact H1 | exact HL].
+  - destruct HP as [P1 P2 P3 P4 P5 P6 P7 P8 P9 P10 P11 P12]. constructor; autorewrite with pw; try assumption; try lia.
+    destruct P3 as (Ek & Hc0 & Hcr & Hpf). split; [exact Ek|]. split; [lia|]. split; [eapply CR_mono; [exact Hcr | exact H1] | exact Hpf].
+Qed.
+
+(** with nothing queued the creator listener has nothing to do *)
+Lemma k_change_quiet x w k new :
+  length (pw_pools x) = 1%nat -> pw_cur x = 0%nat -> get_worker x w = Some k -> Q1 (pw_tq x) -> all_items (pw_tq x) = [] ->
+  terminal new = false ->
+  k_change x w new = (upd_worker x w (with_st k new), [EL 0 w (CbChanged new) (k_st k)]).
+Proof.
+  intros Hp Hcur Hk HQ Hnil Hg. unfold k_change. rewrite Hk.
+  change {| k_st := new; k_create := k_create k; k_task := k_task k; k_tpool := k_tpool k; k_dead := k_dead k |} with (with_st k new).
+  set (x1 := upd_worker x w (with_st k new)).
+  assert (try_grow x1 0 = x1) as Eg.
+  { unfold try_grow. change (pw_tq x1) with (pw_tq x). rewrite (Q1_full_len _ HQ), Hnil. reflexivity. }
+  f_equal. unfold creator. change (pw_cur x1) with (pw_cur x). rewrite Hcur.
+  destruct new; try discriminate; try reflexivity; exact Eg.
 Qed.
 
 End Steps.
